@@ -128,6 +128,7 @@ def run(ck):
     ck.rule("A", "prover and verifier agree on FRI layer count, position folding and per-layer domain reduction")
     c15.remainder_exemption(ck, prog)
     c15.agreement(ck, prog)
+    cols_rule(ck, prog)
     c15.layer_count_rule(ck, prog)
     # transcript agreement: both sides are checked against the one documented event order (rules E1.*/E3.* of C04)
     c04.run(ck)
@@ -145,3 +146,91 @@ def run(ck):
         "positions and domain reduction, so every well-formed schedule is accepted. Not decided: that valid traces satisfy "
         "the prover's degree assertions, that evaluations agree numerically, or anything about specific AIRs."
     )
+
+
+def _eval_expr(e, leaf):
+    """value of a symex expression on integers (floor division); `leaf` maps a non-arithmetic sub-expression to a number or None"""
+    if not isinstance(e, tuple):
+        return None
+    if e[0] == "k":
+        return e[1] if isinstance(e[1], int) else None
+    if e[0] == "op":
+        vs = [_eval_expr(a, leaf) for a in e[2]]
+        if any(v is None for v in vs):
+            return None
+        op = e[1]
+        if op == "add":
+            return sum(vs)
+        if op == "mul":
+            r = 1
+            for v in vs:
+                r *= v
+            return r
+        if op == "sub" and len(vs) == 2:
+            return vs[0] - vs[1]
+        if op == "div" and len(vs) == 2:
+            return vs[0] // vs[1] if vs[1] else None
+        if op == "rem" and len(vs) == 2:
+            return vs[0] % vs[1] if vs[1] else None
+        if op == "max":
+            return max(vs)
+        if op == "min":
+            return min(vs)
+        if op in ("lt", "le", "gt", "ge", "eq", "ne") and len(vs) == 2:
+            return int({"lt": vs[0] < vs[1], "le": vs[0] <= vs[1], "gt": vs[0] > vs[1], "ge": vs[0] >= vs[1], "eq": vs[0] == vs[1], "ne": vs[0] != vs[1]}[op])
+        return None
+    return leaf(e)
+
+
+def cols_rule(ck, prog):
+    """The composition polynomial of degree D = (largest evaluation degree) - (trace_length - exemptions) has D + 1 coefficients and is
+    committed in columns of trace_length coefficients: AirContext::num_constraint_composition_columns must return
+    max(1, ceil((D + 1) / trace_length)) — otherwise the leading coefficient is dropped and honest proofs are rejected exactly when D is
+    a multiple of the trace length (exemptions = constraint degree). The function's result is extracted as a symbolic expression over
+    trace_len(), num_transition_exemptions() and the value its loop computes (E5, integer part), and compared with the formula on a grid
+    that contains the multiples."""
+    from ..symex import paths, norm, show, TooComplex
+    ck.rule("COLS", "number of composition columns = max(1, ceil((D + 1) / trace_length)) for D = max evaluation degree - (trace_length - exemptions)")
+    f = prog.fn("winter_air::air::context::AirContext::num_constraint_composition_columns")
+    ck.saw(f)
+    try:
+        ps = paths(f, max_paths=64, skip_loops=True, havoc_loops=True)
+    except TooComplex as e:
+        ck.note(f"COLS: num_constraint_composition_columns could not be extracted ({e}); not decided")
+        return
+    if not ps:
+        ck.note("COLS: no path extracted; not decided")
+        return
+    bad = None
+    n_eval = 0
+    for conds, res in ps:
+        for n in (8, 16, 64, 1024):
+            for k in (1, 2, 3, 5, 7):
+                for d in (1, 2, 3, 4, 5, 8):
+                    H = d * (n - 1)
+                    if H < n - k:
+                        continue
+
+                    def leaf(e, n=n, k=k, H=H):
+                        if e[0] == "call" and e[1].endswith("::trace_len"):
+                            return n
+                        if e[0] == "call" and e[1].endswith("::num_transition_exemptions"):
+                            return k
+                        if e[0] == "p" and isinstance(e[1], str) and e[1].startswith("loop:"):
+                            return H      # what the loop over the constraint degrees computed: the largest evaluation degree
+                        return None
+                    got = _eval_expr(res, leaf)
+                    if got is None:
+                        ck.note(f"COLS: the extracted expression {show(res)} has a leaf the rule does not know; not decided")
+                        return
+                    n_eval += 1
+                    D = H - (n - k)
+                    want = max(1, -(-(D + 1) // n))
+                    if got != want and bad is None:
+                        bad = (n, k, d, got, want, show(res))
+    ck.ob("COLS", "num_constraint_composition_columns", bad is None,
+          f"the column count equals max(1, ceil((D + 1) / trace_length)) on {n_eval} parameter combinations including every case where D is a "
+          "multiple of the trace length", loc=f.loc(),
+          detail=None if bad is None else {"trace_length": bad[0], "exemptions": bad[1], "constraint degree": bad[2], "columns returned": bad[3],
+                                           "columns needed": bad[4], "extracted": bad[5]})
+    ck.control("COLS: ceil(D / n) differs from ceil((D + 1) / n) exactly when n divides D", max(1, -(-16 // 16)) != max(1, -(-17 // 16)))
